@@ -419,3 +419,87 @@ func g12HasUndefined(c *Ctx) {
 	}
 	c.Rep.analysed("HasUndefined_paths", rows)
 }
+
+// G13 — exportedness and import paths.
+// (a) (*Field).Private is tabulated over the classes of first characters that Go's definition of an exported identifier
+//     distinguishes (upper-case letter; lower-case letter; underscore; caseless letter): Private(name) == !token.IsExported(name).
+//     The plugins choose between direct access and reflect/unsafe access to a field of an imported struct with it.
+// (b) unvendor strips only whole `vendor` path elements: every search needle that mentions "vendor" is anchored by a
+//     leading "/" or is used with HasPrefix.
+func g13Fields(c *Ctx) {
+	fi := c.Repo.lookup("derive.(*Field).Private")
+	if fi == nil {
+		c.Rep.fail(Finding{Rule: "G13", Key: "G13|Private|missing", Kind: "undecided", Msg: "(*Field).Private not found"})
+	} else {
+		for _, name := range []string{"Exported", "lower", "_under", "_", "世界", "Ünïcode", "ünïcode", "x", "X"} {
+			in := &Interp{repo: c.Repo, plugin: "derive", decls: c.R.decls, or: &Oracle{}, memo: map[string]int{}, shape: 1, arities: []int{1},
+				preds: map[string]Value{}, stack: map[*ast.FuncDecl]int{}, imports: map[string]int{}, importUse: map[string]bool{}, holes: map[string]*Hole{}, g9mode: true}
+			recv := &VPtr{Elem: &VStruct{Fields: map[string]Value{"name": lit(name), "external": VBool{Sym: "external"}, "Type": &VOpaque{Origin: "fieldtype"}, "typeStr": VNil{}}}}
+			var res Value
+			msg := ""
+			func() {
+				defer func() {
+					if e := recover(); e != nil {
+						if a, ok := e.(abort); ok {
+							msg = a.kind + ": " + a.msg
+							return
+						}
+						msg = fmt.Sprint(e)
+					}
+				}()
+				res = in.callFunc(&VFunc{Decl: fi.Decl, Pkg: fi.Pkg, Recv: recv}, nil, token.NoPos)
+			}()
+			b, ok := res.(VBool)
+			want := !token.IsExported(name)
+			switch {
+			case msg != "" || !ok || !b.Known:
+				c.Rep.fail(Finding{Rule: "G13", Key: "G13|Private|undecided", Kind: "undecided", Where: []string{c.Repo.pos(fi.Decl.Pos())},
+					Msg: fmt.Sprintf("(*Field).Private cannot be tabulated for the field name %q (%s %v): it uses constructs outside the interpreter's string model", name, msg, res)})
+			case b.V != want:
+				c.Rep.fail(Finding{Rule: "G13", Key: fmt.Sprintf("G13|Private|class of %q", name), Where: []string{c.Repo.pos(fi.Decl.Pos())},
+					Msg: fmt.Sprintf("(*Field).Private(%q) = %v but Go treats that field as %s: for a struct of another package the plugins would access it %s, and the generated code does not compile (or needlessly uses reflection)", name, b.V,
+						map[bool]string{true: "unexported", false: "exported"}[want], map[bool]string{true: "directly", false: "through reflect/unsafe"}[want])})
+			default:
+				c.Rep.pass("G13")
+			}
+		}
+	}
+	uv := c.Repo.lookup("derive.unvendor")
+	if uv == nil {
+		c.Rep.fail(Finding{Rule: "G13", Key: "G13|unvendor|missing", Kind: "undecided", Msg: "derive.unvendor not found"})
+		return
+	}
+	info := uv.Pkg.TypesInfo
+	n := 0
+	ast.Inspect(uv.Decl, func(x ast.Node) bool {
+		call, ok := x.(*ast.CallExpr)
+		if !ok {
+			return true
+		}
+		fn, ok := callee(info, call).(*types.Func)
+		if !ok || fn.Pkg() == nil || fn.Pkg().Path() != "strings" || len(call.Args) < 2 {
+			return true
+		}
+		tv := info.Types[call.Args[1]]
+		if tv.Value == nil {
+			return true
+		}
+		needle := strings.Trim(tv.Value.ExactString(), `"`)
+		if !strings.Contains(needle, "vendor") {
+			return true
+		}
+		n++
+		anchored := strings.HasPrefix(needle, "/") || fn.Name() == "HasPrefix"
+		closed := strings.HasSuffix(needle, "/")
+		if anchored && closed {
+			c.Rep.pass("G13")
+		} else {
+			c.Rep.fail(Finding{Rule: "G13", Key: "G13|unvendor|unanchored " + fn.Name(), Where: []string{c.Repo.pos(call.Pos())},
+				Msg: fmt.Sprintf("unvendor searches the import path with strings.%s(%q): the match is not confined to a whole `vendor` path element, so a directory such as `fruitvendor/` is cut out of the import path and the generated file imports a package that does not exist", fn.Name(), needle)})
+		}
+		return true
+	})
+	if n == 0 {
+		c.Rep.fail(Finding{Rule: "G13", Key: "G13|unvendor|vacuity", Kind: "undecided", Where: []string{c.Repo.pos(uv.Decl.Pos())}, Msg: "unvendor no longer searches for vendor path elements with constant needles"})
+	}
+}
